@@ -30,7 +30,7 @@ pub static PROP: Prop = Prop {
         "the NTPv5-upgrade try counter / protocol version is not part of the synchronisation, polling or demobilisation state (an answered KISS may consume an upgrade try)",
     ],
     profiles: Profiles::Strict,
-    cases: |t| t.pick(6_000, 150_000),
+    cases: |t| t.pick(40_000, 400_000),
     budget_s: |t| t.pick(60, 600),
     run,
     min_nontrivial: 60,
